@@ -146,15 +146,106 @@ def stack_placements(rng, n=10):
         ca, cb = cen(ra), R @ cen(rb)
 
         def place(r, Rm, t, chain, number):
+            lab = dataclasses.replace(r.auth, chain=chain, number=number, icode=None) if r.auth is not None else None
+            lbl = dataclasses.replace(r.label, chain=chain, number=number) if r.label is not None else None
             atoms = []
             for a in r.atoms:
                 q = Rm @ np.array([a.x, a.y, a.z]) + t
-                atoms.append(dataclasses.replace(a, x=geo.snap(float(q[0])), y=geo.snap(float(q[1])), z=geo.snap(float(q[2]))))
-            lab = dataclasses.replace(r.auth, chain=chain, number=number, icode=None) if r.auth is not None else None
-            lbl = dataclasses.replace(r.label, chain=chain, number=number) if r.label is not None else None
+                atoms.append(dataclasses.replace(a, x=geo.snap(float(q[0])), y=geo.snap(float(q[1])), z=geo.snap(float(q[2])), label=lbl, auth=lab))
             return dataclasses.replace(r, atoms=tuple(atoms), auth=lab, label=lbl)
         residues.append(place(ra, np.eye(3), origin - ca, "A", 2 * k + 1))
         residues.append(place(rb, R, origin + offset - cb, "A", 2 * k + 2))
+    return Structure3D(residues)
+
+
+def _rot_about(axis, ang):
+    axis = axis / np.linalg.norm(axis)
+    K = np.array([[0, -axis[2], axis[1]], [axis[2], 0, -axis[0]], [-axis[1], axis[0], 0]])
+    return np.eye(3) + math.sin(ang) * K + (1 - math.cos(ang)) * (K @ K)
+
+
+def _align(a, b):
+    """rotation taking unit vector a to unit vector b"""
+    v = np.cross(a, b)
+    c = float(np.dot(a, b))
+    if np.linalg.norm(v) < 1e-9:
+        return np.eye(3) if c > 0 else _rot_about(_perp(a), math.pi)
+    vx = np.array([[0, -v[2], v[1]], [v[2], 0, -v[0]], [-v[1], v[0], 0]])
+    return np.eye(3) + vx + vx @ vx * (1.0 / (1.0 + c))
+
+
+def pair_placements(rng, n=10, plan=None):
+    """synthetic base-pair placements: two complete nucleotides with coplanar bases (normals parallel or antiparallel), the second
+    turned about the common normal by a random angle and pushed in the plane from a random side until the closest base atoms
+    are 2.6-3.4 A apart: every edge combination occurs, also two classes for one nucleotide pair through corner atoms"""
+    import dataclasses
+    from rnapolis.tertiary import Structure3D
+    from . import chem
+    by_letter = {}
+    for (L, nm), r in _templates().items():
+        by_letter.setdefault(L, []).append(r)
+    letters = sorted(by_letter)
+    residues = []
+    for k in range(n if plan is None else len(plan)):
+        ra = rng.choice(by_letter[rng.choice(letters)])
+        rb = rng.choice(by_letter[rng.choice(letters)])
+        if plan is not None:
+            ra = by_letter[plan[k][0]][0]
+
+        def base_pts(r, Rm=np.eye(3), t=np.zeros(3)):
+            return [Rm @ np.array(r.find_atom(a).coordinates, dtype=float) + t for a in chem.BASE_ATOMS[r.one_letter_name]]
+        na, nb = np.array(chem.base_normal(ra), dtype=float), np.array(chem.base_normal(rb), dtype=float)
+        na, nb = na / np.linalg.norm(na), nb / np.linalg.norm(nb)
+        R = _rot_about(na, rng.uniform(0, 2 * math.pi)) @ _align(nb, na if rng.random() < 0.5 else -na)
+        if plan is not None or rng.random() < 0.35:
+            # a symmetric dimer: the same nucleotide turned by 180 degrees about the base normal; its contacts come in mirrored
+            # couples, so one nucleotide pair can carry two edge-disjoint classes (e.g. tSW and tWS through corner atoms)
+            rb, nb = ra, na
+            R = _rot_about(na, math.pi)
+        pa = base_pts(ra)
+        ca = sum(pa) / len(pa)
+        pb0 = base_pts(rb, R)
+        cb0 = sum(pb0) / len(pb0)
+        u = _perp(na)
+        w = np.cross(na, u)
+        psi = rng.uniform(0, 2 * math.pi)
+        direction = math.cos(psi) * u + math.sin(psi) * w
+        if rb is ra and rng.random() < 0.8:
+            # push towards a corner atom (an atom on two edges): its mirrored couple of contacts supports two classes at once
+            corners = [a for a, e in chem.BASE_EDGES.get(ra.one_letter_name, {}).items() if len(e) == 2 and ra.find_atom(a) is not None and a in chem.BASE_ATOMS[ra.one_letter_name]]
+            if corners:
+                q = np.array(ra.find_atom(rng.choice(corners)).coordinates, dtype=float) - ca
+                q = q - np.dot(q, na) * na
+                if np.linalg.norm(q) > 1e-6:
+                    direction = _rot_about(na, math.radians(rng.uniform(-25, 25))) @ (q / np.linalg.norm(q))
+        target = rng.uniform(2.6, 3.4)
+        if plan is not None:
+            direction = math.cos(plan[k][1]) * u + math.sin(plan[k][1]) * w
+            target = plan[k][2]
+
+        def mind(D):
+            t = ca + D * direction - cb0
+            return min(float(np.linalg.norm(x - (y + t))) for x in pa for y in pb0)
+        lo, hi = 0.0, 16.0
+        for _ in range(40):          # the closest approach grows with D beyond the overlap region: bisect from outside
+            mid = (lo + hi) / 2
+            if mind(mid) < target:
+                lo = mid
+            else:
+                hi = mid
+        D = hi
+        origin = np.array([60.0 * k, 0.0, 0.0])
+
+        def place(r, Rm, t, chain, number):
+            lab = dataclasses.replace(r.auth, chain=chain, number=number, icode=None) if r.auth is not None else None
+            lbl = dataclasses.replace(r.label, chain=chain, number=number) if r.label is not None else None
+            atoms = []
+            for a in r.atoms:
+                q = Rm @ np.array([a.x, a.y, a.z]) + t
+                atoms.append(dataclasses.replace(a, x=geo.snap(float(q[0])), y=geo.snap(float(q[1])), z=geo.snap(float(q[2])), label=lbl, auth=lab))
+            return dataclasses.replace(r, atoms=tuple(atoms), auth=lab, label=lbl)
+        residues.append(place(ra, np.eye(3), origin - ca, "A", 2 * k + 1))
+        residues.append(place(rb, R, origin + D * direction - cb0, "B", 2 * k + 2))
     return Structure3D(residues)
 
 
@@ -172,6 +263,14 @@ def structures(ctx, kinds=("corpus", "moved", "jitter", "reversed", "thin", "thi
         files += ["1E7K_1_C.cif", "184D.cif", "488d.pdb"]
     if not ctx.quick:
         files += ["1JJP.cif", "1A1T_1_B.cif", "q-ugg-5k-salt_400-500ns_frame1065.pdb"]
+    if "synthetic-pair" in kinds:
+        for t in range(3 if ctx.quick else 25):
+            yield f"synthetic-pair-{t}", "synthetic-pair", pair_placements(rng, 14)
+        # symmetric dimers of every letter, pushed together from 24 (thorough: 72) directions: contacts come in mirrored couples
+        plan = [(L, 2 * math.pi * d / (24 if ctx.quick else 72), tgt) for L in sorted({k[0] for k in _templates()})
+                for d in range(24 if ctx.quick else 72) for tgt in ([2.9] if ctx.quick else [2.7, 3.0, 3.3])]
+        for t in range(0, len(plan), 15):
+            yield f"symmetric-dimers-{t // 15}", "synthetic-pair", pair_placements(rng, plan=plan[t:t + 15])
     if "synthetic-stack" in kinds:
         for t in range(4 if ctx.quick else 25):
             yield f"synthetic-stack-{t}", "synthetic-stack", stack_placements(rng, 16)
